@@ -147,6 +147,65 @@ fn main() {
             w.push(format!("RCaseDec {} {} {}", coq_bytes(&input), status, coq_option(val.clone())), format!("read {} -> status {}", hex_of(&input), status));
         }
     }
+    // long bodies: the 16-bit / 32-bit length headers (65536 entries), by rule (Model/MsgPack.v big_value)
+    let sizes: &[usize] = if args.tier == "thorough" { &[255, 256, 65535, 65536, 65537, 70001] } else { &[65535, 65536] };
+    for kind in 0..6u32 {
+        for &n in sizes {
+            let small = |i: usize| Value::Int32Value((i % 300) as i32);
+            let v = match kind {
+                0 => Value::Record(vec![], (0..n).map(|i| Item::ValueItem(small(i))).collect()),
+                1 => Value::Record(vec![], (0..n).map(|i| Item::Slot(Value::Int32Value(i as i32), small(i))).collect()),
+                2 => Value::Record(
+                    vec![],
+                    (0..n).map(|i| if i % 2 == 0 { Item::Slot(Value::Int32Value(i as i32), small(i)) } else { Item::ValueItem(small(i)) }).collect(),
+                ),
+                3 => Value::Record((0..n).map(|_| Attr::of((Text::new("a"), Value::Extant))).collect(), vec![]),
+                4 => Value::Text(Text::new(&(0..n).map(|i| (97 + (i % 26) as u8) as char).collect::<String>())),
+                _ => Value::Data(Blob::from_vec((0..n).map(|i| (i % 256) as u8).collect())),
+            };
+            let bytes = match to_msgpack(&v) {
+                Ok(b) => b,
+                Err(e) => {
+                    failures.push(format!("big value kind {} n {}: writing as MessagePack failed: {}", kind, n, e));
+                    continue;
+                }
+            };
+            let sum = bytes.iter().fold((0u64, 0u64), |(a, s), b| (a + *b as u64, s + a + *b as u64)).1;
+            *kinds.entry(format!("big_kind{}", kind)).or_default() += 1;
+            nontrivial += 1;
+            w.push(format!("RCaseBig {} {} {} {}", kind, n, bytes.len(), sum), format!("write big_value {} {} -> {} bytes", kind, n, bytes.len()));
+            // the reader must give the value back (the model's round-trip theorem; its decoder is not run on these)
+            let r = catch(std::panic::AssertUnwindSafe(|| {
+                let mut b = bytes::Bytes::from(bytes.clone());
+                read_from_msg_pack::<Value, _>(&mut b)
+            }));
+            match r {
+                Ok(Ok(back)) if back == v => {}
+                Ok(Ok(_)) => failures.push(format!("big value kind {} with {} entries: read back as a different Value", kind, n)),
+                Ok(Err(e)) => failures.push(format!("big value kind {} with {} entries: reading its own encoding failed: {:?}", kind, n, e)),
+                Err(m) => failures.push(format!("big value kind {} with {} entries: reading panicked: {}", kind, n, m)),
+            }
+            // typed targets
+            if kind == 0 {
+                let r = catch(std::panic::AssertUnwindSafe(|| {
+                    let mut b = bytes::Bytes::from(bytes.clone());
+                    read_from_msg_pack::<Vec<i32>, _>(&mut b)
+                }));
+                if !matches!(&r, Ok(Ok(xs)) if xs.len() == n && xs.iter().enumerate().all(|(i, x)| *x == (i % 300) as i32)) {
+                    failures.push(format!("Vec<i32> with {} entries: not read back from its own encoding: {:?}", n, r.map(|x| x.map(|v| v.len()))));
+                }
+            }
+            if kind == 1 {
+                let r = catch(std::panic::AssertUnwindSafe(|| {
+                    let mut b = bytes::Bytes::from(bytes.clone());
+                    read_from_msg_pack::<std::collections::HashMap<i32, i32>, _>(&mut b)
+                }));
+                if !matches!(&r, Ok(Ok(m)) if m.len() == n && m.iter().all(|(k, x)| *x == (*k as usize % 300) as i32)) {
+                    failures.push(format!("HashMap<i32,i32> with {} entries: not read back from its own encoding: {:?}", n, r.map(|x| x.map(|v| v.len()))));
+                }
+            }
+        }
+    }
     w.finish(&args.out, "cases").unwrap();
     failures.sort();
     failures.dedup();
